@@ -201,26 +201,37 @@ def path_summaries(f: FuncInfo, limit: int = 512, body: Optional[List[ast.stmt]]
             return conds
         return conds + [(text, truth)]
 
-    def push(conds, t, truth, env):
-        """the conditions of the path after `t` evaluated to `truth`; None when that cannot happen on this path (a constant test, a contradiction)"""
+    def push_all(conds, t, truth, env):
+        """the alternative condition lists of the path after `t` evaluated to `truth` (none when that cannot happen on this path: a constant test, a contradiction).
+        A conjunction that holds / a disjunction that fails adds all its parts; a disjunction that holds (a conjunction that fails) splits into the disjoint cases
+        "first part decides", "first part does not, second does", ... so that every condition on a path is an atomic test."""
         if conds is None:
-            return None
+            return []
         while isinstance(t, ast.UnaryOp) and isinstance(t.op, ast.Not):
             t, truth = t.operand, not truth
-        if isinstance(t, ast.BoolOp) and ((isinstance(t.op, ast.And) and truth) or (isinstance(t.op, ast.Or) and not truth)):
+        if isinstance(t, ast.BoolOp):
+            all_parts = (isinstance(t.op, ast.And) and truth) or (isinstance(t.op, ast.Or) and not truth)
+            if all_parts:
+                alts = [conds]
+                for v in t.values:
+                    alts = [c2 for c in alts for c2 in push_all(c, v, truth, env)]
+                return alts
+            res, prefix = [], [conds]
             for v in t.values:
-                conds = push(conds, v, truth, env)
-                if conds is None:
-                    return None
-            return conds
+                res.extend(c2 for c in prefix for c2 in push_all(c, v, truth, env))
+                prefix = [c2 for c in prefix for c2 in push_all(c, v, not truth, env)]
+                if not prefix:
+                    break
+            return res
         s = sub(t, env)
         while isinstance(s, ast.UnaryOp) and isinstance(s.op, ast.Not):
             s, truth = s.operand, not truth
         if isinstance(s, ast.Constant):
-            return conds if bool(s.value) == truth else None
-        if isinstance(s, ast.BoolOp) and ((isinstance(s.op, ast.And) and truth) or (isinstance(s.op, ast.Or) and not truth)):
-            return push(conds, s, truth, {})
-        return add(conds, norm_text(s, limit=100000).replace('"', "'"), truth)
+            return [conds] if bool(s.value) == truth else []
+        if isinstance(s, ast.BoolOp):
+            return push_all(conds, s, truth, {})
+        c2 = add(conds, norm_text(s, limit=100000).replace('"', "'"), truth)
+        return [c2] if c2 is not None else []
 
     def expand(e, env):
         """[(extra conditions, value)] for a call of a new helper (its return paths, parameters bound to the substituted arguments); None when e is not such a call"""
@@ -281,10 +292,8 @@ def path_summaries(f: FuncInfo, limit: int = 512, body: Optional[List[ast.stmt]]
             return [(conds, sub(e, env))]
         res = []
         for truth, arm in ((True, first.body), (False, first.orelse)):
-            cc = push(conds, first.test, truth, env)
-            if cc is None:
-                continue
-            res.extend(variants(_replace(e, first, arm), cc, env))
+            for cc in push_all(conds, first.test, truth, env):
+                res.extend(variants(_replace(e, first, arm), cc, env))
         return res
 
     def assign(t, v, env, eff):
@@ -363,13 +372,11 @@ def path_summaries(f: FuncInfo, limit: int = 512, body: Optional[List[ast.stmt]]
                     if cc is None:
                         continue
                     for truth, arm in ((True, st.body), (False, st.orelse)):
-                        c3 = push(cc, v, truth != neg, {})
-                        if c3 is not None:
+                        for c3 in push_all(cc, v, truth != neg, {}):
                             run(arm, c3, env, eff, [rest] + k)
             else:
                 for truth, arm in ((True, st.body), (False, st.orelse)):
-                    c2 = push(conds, st.test, truth, env)
-                    if c2 is not None:
+                    for c2 in push_all(conds, st.test, truth, env):
                         run(arm, c2, env, eff, [rest] + k)
         elif isinstance(st, ast.Try):
             run(list(st.body) + list(st.orelse), conds, env, eff, [list(st.finalbody) + rest] + k)
